@@ -16,6 +16,7 @@ mod refmodel;
 mod runner;
 mod sut;
 mod tape;
+mod trace;
 
 use crate::core::{Prop, Tier};
 
